@@ -826,6 +826,35 @@ func (x *Exec) guardedAccess(cfg *Config, addr Val, write bool, what string, pos
 		m = x.ghostRead(cfg.st, g, a.Base).T
 		found = true
 	}
+	optional := false
+	if strings.HasPrefix(mfield, "optional:") {
+		// guarded S.{f} by optional:ufun(field): the mutex is ufun(&obj.field),
+		// and may be absent (nil: the object is not shared between goroutines)
+		spec := strings.TrimPrefix(mfield, "optional:")
+		op, cp := strings.Index(spec, "("), strings.LastIndex(spec, ")")
+		if op < 0 || cp < op {
+			unsupported("guard %s: want optional:fn(field)", mfield)
+		}
+		fn, fld := spec[:op], strings.TrimSpace(spec[op+1:cp])
+		uf, ok := x.ufun(nil, fn)
+		if !ok {
+			unsupported("guard %s: %s is not a declared ufun", mfield, fn)
+		}
+		for i := 0; i < s.NumFields(); i++ {
+			if s.Field(i).Name() != fld {
+				continue
+			}
+			var arg Term
+			if isStructType(s.Field(i).Type()) {
+				arg = x.subRef(a.STyp, i, a.Base)
+			} else {
+				_, arr, _ := x.fieldArr(cfg.st, a.STyp, i)
+				arg = Select(arr, a.Base)
+			}
+			m = uf.apply(arg)
+			found, optional = true, true
+		}
+	}
 	for i := 0; i < s.NumFields() && !found; i++ {
 		if s.Field(i).Name() != mfield {
 			continue
@@ -852,6 +881,9 @@ func (x *Exec) guardedAccess(cfg *Config, addr Val, write bool, what string, pos
 	// objects allocated by this invocation are not yet shared
 	top0 := x.d.Const("H0!$top", SInt)
 	goal := Or(held, Gt(a.Base, top0))
+	if optional {
+		goal = Or(goal, Eq(m, IntLit(0)))
+	}
 	x.oblige(cfg, "guarded-"+rw, fmt.Sprintf("%s.%s by %s", typeName(a.STyp), fname, mfield), goal, []string{"C13"}, pos)
 }
 
